@@ -72,6 +72,7 @@ def run(ctx):
                 p["reseed"] = 1
                 p.pop("maxtime", None)
                 p.pop("clockq", None)
+                p.pop("clock0", None)
                 ps.append(p)
         # the stop raised by exactly the evaluation that also exhausts maxeval: FORCED_STOP must win
         for nm in problems.ALL:
@@ -82,6 +83,7 @@ def run(ctx):
                 p["reseed"] = 1
                 p.pop("maxtime", None)
                 p.pop("clockq", None)
+                p.pop("clock0", None)
                 p.pop("stopval", None)
                 ps.append(p)
         import os
